@@ -549,3 +549,99 @@ def unit_c10(args):
     res["wall"] = time.time() - t0
     res["models_used"] = sorted(MD.USED)
     return res
+
+
+# ---------------------------------------------------------------- C15: absolute text-normalisation oracle for the XML tokenizer
+def unit_xmlnorm(args):
+    """Data (or attribute value) text: output characters == resolved prefix + normalise(symbolic characters), where
+    normalise maps CR LF -> LF, CR -> LF, NUL -> U+FFFD and nothing else.  Symbolic characters exclude the markup
+    characters given in args['exclude'] so that they stay character data."""
+    from mirsym.interp import Machine, PathEnd
+    t0 = time.time()
+    res = {"unit": "C15norm %r+%d+%r %s" % (args["prefix"], args["k"], args.get("suffix", ""), args.get("where", "text")),
+           "paths": 0, "queries": 0, "obligations": 0, "violations": [], "panics": [], "errors": [], "livelock": 0}
+    try:
+        k = args["k"]
+        chars, cons = tok.sym_chars(k, args.get("classes"))
+        for c in chars:
+            for x in args.get("exclude", "<&"):
+                cons.append(c != ord(x))
+        pre = [ord(c) for c in args["prefix"]]
+        suf = [ord(c) for c in args.get("suffix", "")]
+        allch = pre + chars + suf
+        base = dict(args["base"])
+        stats = {}
+        lens_list = [None] + [l for l in args.get("chunkings", [])]
+        for lens in lens_list:
+            chunks = split(allch, lens) if lens is not None else None
+            for ee in (False, True):
+                A = tok.explore(_PROG, mk_cfg(dict(base, exact_errors=ee), constraints=cons, chunks=chunks), allch, stats=stats)
+                for a in A:
+                    check_path_sanity(res, a, allch, dict(base, exact_errors=ee), lens, args)
+                    if a.outcome != "ok":
+                        continue
+                    # observed text
+                    if args.get("where") == "attr":
+                        got = None
+                        for t, _ in a.tokens:
+                            if t[0] == "XTag" and t[3]:
+                                got = list(t[3][0][1])
+                        if got is None:
+                            got = ["<no attribute>"]
+                    else:
+                        got = []
+                        for t, _ in a.tokens:
+                            if t[0] == "Chars":
+                                got.extend(t[1])
+                    # expected text under this path's condition (normalisation forks on CR / LF / NUL)
+                    work = [[]]
+                    while work:
+                        d = work.pop()
+                        m2 = Machine(None, d)
+                        for c in cons + a.pc:
+                            m2.assume(c)
+                        try:
+                            exp = list(args["resolved"])
+                            prev_cr = False
+                            for c in chars:
+                                if prev_cr:
+                                    prev_cr = False
+                                    if m2.branch_bool(c == 0x0A, "norm LF after CR"):
+                                        continue
+                                if m2.branch_bool(c == 0x0D, "norm CR"):
+                                    exp.append(0x0A)
+                                    prev_cr = True
+                                elif m2.branch_bool(c == 0, "norm NUL"):
+                                    exp.append(0xFFFD)
+                                else:
+                                    exp.append(c)
+                            exp += [ord(x) for x in args.get("resolved_suffix", "")]
+                        except PathEnd:
+                            work.extend(m2.pending)
+                            continue
+                        work.extend(m2.pending)
+                        res["queries"] += m2.nqueries
+                        res["obligations"] += 1
+                        eq = MD.seq_eq(got, exp) if len(got) == len(exp) and not any(isinstance(g, str) for g in got) else False
+                        if eq is True:
+                            continue
+                        rr, mo = model_of(m2.pc, [z3.Not(eq)] if eq is not False else [])
+                        res["queries"] += 1
+                        if rr == z3.sat:
+                            cc = concrete_chars(allch, mo)
+                            res["violations"].append({"what": "XML character data is not the normalised input", "chars": cc, "lens": lens, "label": "xmlnorm",
+                                                      "state": tok.state_spec(_tup(base["state"])), "base": cfg_dict(mk_cfg(dict(base, exact_errors=ee))), "variant": None,
+                                                      "expected": tok.show_obs([tuple(exp)], mo), "got": tok.show_obs([tuple(got)], mo) if not any(isinstance(g, str) for g in got) else got,
+                                                      "where": args.get("where", "text"), "nsuffix": len(suf), "nprefix": len(pre), "resolved": args["resolved"],
+                                                      "resolved_suffix": args.get("resolved_suffix", "")})
+                        elif rr != z3.unsat:
+                            res["errors"].append("solver unknown")
+        res["paths"] = stats.get("paths", 0)
+        res["queries"] += stats.get("queries", 0)
+    except Unsupported as e:
+        res["errors"].append("unsupported: " + str(e)[:300])
+    except Exception:
+        res["errors"].append("exception: " + traceback.format_exc()[-900:])
+    res["wall"] = time.time() - t0
+    res["models_used"] = sorted(MD.USED)
+    return res
